@@ -1,4 +1,6 @@
 """C18 — inference I/O keeps parameters, individuals and draws aligned"""
+import contextlib
+import io
 import math
 
 import numpy as np
@@ -14,19 +16,28 @@ REQUIRED_THEOREMS = [
     'C18_initial_structure_counterexample', 'C18_initial_structure_filter', 'C18_table_pairs',
     'C18_readback', 'C18_roundtrip', 'C18_roundtrip_example', 'C18_readback_history_independent',
     'C18_readback_cache_counterexample', 'C18_initial_reproducible', 'C18_seed_zero_counterexample',
-    'C18_param_map_once', 'C18_param_map_distinct', 'C18_param_map_exchange_counterexample']
+    'C18_param_map_once', 'C18_param_map_distinct', 'C18_param_map_exchange_counterexample',
+    'C18_table_id_scalar', 'C18_table_id_per_parameter', 'C18_table_id_order_counterexample',
+    'C18_table_outcomes_pairs', 'C18_table_hoisted_counterexample', 'C18_shared_predictive_model',
+    'C18_shared_predictive_model_alias_counterexample']
 RULE = ('random posteriors: individual (LogPosterior), hierarchical (1-3 population sub-models out of '
         'Gaussian / log-normal centred and non-centred, truncated Gaussian, pooled, heterogeneous, covariate-'
         'wrapped Gaussian and pooled, reduced), 1-4 individuals, 1-2 dims per sub-model, and population-filter '
         'posteriors; random raw chains (1-3 chains, 1-5 draws) with pairwise distinct entries; seeds; 2-run '
         'optimisations; read-back through PosteriorPredictiveModel and compute_pointwise_loglikelihood. '
+        'Optimisation tables: 1-4 runs of labelled / unlabelled individual and hierarchical posteriors with a '
+        'recording optimiser (set_optimiser) of which any subset of the runs breaks down after 0-3 iterations; '
+        'read-back: one PredictiveModel / log-likelihood object serving several consumers with different '
+        'parameter maps before and between the observed calls. '
         'non-trivial = a special (pooled / heterogeneous) dimension next to a hierarchical one, or >= 2 '
         'individuals with >= 2 bottom names; distinct = distinct (posterior kind, composition, n_ids)')
 ASSUMPTIONS = ['the mechanistic model is the closed-form toy model of harness/toy.py (the ODE solver is absent)',
                'population_model.sample and log_prior.sample are primitives: structure of the initial points is '
                'checked by replaying them with the same seeds through the public API',
                'xarray / pandas container semantics (dict of DataArrays, coordinate selection) are modelled as '
-               'gathers of chain positions']
+               'gathers of chain positions; column assignment to a frame (a scalar is broadcast over the rows '
+               'present, a list gives a frame without rows its rows) as LabelFrame.setId / setParam',
+               'a run of the optimisation breaks down = the optimiser handed to set_optimiser raises from ask()']
 
 KINDS = ['G', 'Gnc', 'LN', 'LNnc', 'TG', 'P', 'H', 'CovG', 'CovP']
 
@@ -362,6 +373,15 @@ def exchange_names(rng, model_names, pmap, p_exchange=0.6):
     return ren, {k_: new[k_] for k_ in [keys[int(j)] for j in rng.permutation(len(keys))]}
 
 
+def other_map(rng, model_names, pmap, variables):
+    """another consumer's parameter map on the same dataset: like `pmap`, but a random non-empty subset of the
+    model parameters reads some other variable of the dataset"""
+    dmap = dict(pmap)
+    for j in rng.choice(len(model_names), size=int(rng.integers(1, len(model_names) + 1)), replace=False):
+        dmap[model_names[int(j)]] = variables[int(rng.integers(len(variables)))]
+    return dmap
+
+
 def readback_case(ctx, chi, c, fmt, lls, inp, rng):
     """feed the dataset to a PosteriorPredictiveModel and to compute_pointwise_loglikelihood;
     ONE PosteriorPredictiveModel object is asked for a sequence of individuals (repetitions and the default
@@ -426,12 +446,31 @@ def readback_case(ctx, chi, c, fmt, lls, inp, rng):
     pred = chi.PredictiveModel(make_toy(c, n_dim - 1), [chi.GaussianErrorModel()])
     times = [0.5, 1.5, 3.0]
     n_samples = int(rng.integers(1, 4))
+    # ONE PredictiveModel may serve several PosteriorPredictiveModels, each with its own name map (the "typical
+    # individual" next to the individuals' own parameters): other objects are built from the same
+    # PredictiveModel before the observed one and between its calls; every object keeps reading its own columns
+    others = []
+
+    def other_consumer(when):
+        dmap = other_map(rng, model_names, pmap, [str(v) for v in ds.data_vars])
+        others.append([when, [[a_, b_] for a_, b_ in dmap.items()]])
+        try:
+            chi.PosteriorPredictiveModel(pred, ds, param_map=dmap)
+        except Exception as e:  # noqa
+            ctx.spec('C18.readback/other_model_on_shared_predictive_model', False, dict(inp, other_models=others),
+                     {'constructor raised': repr(e)[:200], 'param_map': dmap})
+    if rng.random() < 0.5:
+        other_consumer('before')
     try:
         ppm = chi.PosteriorPredictiveModel(pred, ds, param_map=pmap)
     except Exception as e:  # noqa
-        ctx.spec('C18.readback/posterior_predictive', False, inp, {'constructor raised': repr(e)[:200]})
+        ctx.spec('C18.readback/posterior_predictive_shared_predictive_model' if others else
+                 'C18.readback/posterior_predictive', False, dict(inp, other_models=others),
+                 {'constructor raised': repr(e)[:200]})
         ppm = None
     for pos, r_ind in enumerate(seq):
+        if pos > 0 and ppm is not None and rng.random() < 0.35:
+            other_consumer('before call %d' % pos)
         individual = None if r_ind is None else uniq[r_ind]
         eff = uniq[0] if r_ind is None else individual
         cols = columns(pmap, eff)
@@ -457,9 +496,10 @@ def readback_case(ctx, chi, c, fmt, lls, inp, rng):
             par = g.choice(posterior)
             smp = pred.sample(par, np.sort(times), n_samples, g, return_df=False)
             want += list(smp[0, :, 0])
-        ctx.spec('C18.readback/posterior_predictive' if pos == 0 else
+        ctx.spec('C18.readback/posterior_predictive_shared_predictive_model' if others else
+                 'C18.readback/posterior_predictive' if pos == 0 else
                  'C18.readback/posterior_predictive_same_object_later_call',
-                 not isinstance(got, str) and core.close(got, want, 1e-12), inp,
+                 not isinstance(got, str) and core.close(got, want, 1e-12), dict(inp, other_models=others),
                  {'call': pos, 'requests_so_far': [None if r is None else uniq[r] for r in seq[:pos + 1]],
                   'param_map': pmap, 'chi': got, 'expected': want, 'columns': cols, 'seed': seed})
     # --- pointwise log-likelihood: the function is called for two individuals in a row on the same dataset
@@ -470,6 +510,14 @@ def readback_case(ctx, chi, c, fmt, lls, inp, rng):
         if cols is None:
             continue
         ll = lls[r_ind]
+        earlier = None
+        if rng.random() < 0.5:
+            # the same log-likelihood object was evaluated on the dataset under another name map before
+            earlier = other_map(rng, model_names, pm_, [str(v) for v in ds.data_vars])
+            try:
+                chi.compute_pointwise_loglikelihood(ll, ds, individual=individual, param_map=earlier)
+            except Exception:  # noqa
+                pass
         try:
             pw = chi.compute_pointwise_loglikelihood(ll, ds, individual=individual, param_map=pm_)
             gotp = np.asarray(pw.values, float)
@@ -478,8 +526,10 @@ def readback_case(ctx, chi, c, fmt, lls, inp, rng):
         with np.errstate(all='ignore'):
             wantp = np.array([[ll.compute_pointwise_ll(chains[ci, di, cols]) for di in range(n_draws)]
                               for ci in range(n_chains)], float)
-        ctx.spec('C18.readback/pointwise_loglikelihood', not isinstance(gotp, str) and gotp.shape == wantp.shape
-                 and core.close(gotp, wantp, 1e-12), inp,
+        ctx.spec('C18.readback/pointwise_loglikelihood' if earlier is None else
+                 'C18.readback/pointwise_loglikelihood_after_call_with_other_map',
+                 not isinstance(gotp, str) and gotp.shape == wantp.shape
+                 and core.close(gotp, wantp, 1e-12), inp if earlier is None else dict(inp, earlier_param_map=earlier),
                  {'individual': individual, 'chi': gotp if isinstance(gotp, str) else 'array', 'columns': cols})
 
 
@@ -515,6 +565,20 @@ def individual_dataset_case(ctx, chi, rng, k):
     n_chains, n_draws, _ = chains.shape
     pred = chi.PredictiveModel(toy.ToyModel(1, n_mech, tseed), [chi.GaussianErrorModel()])
     seed = pick_seed(rng)
+    shared = None
+    if rng.random() < 0.5:
+        # the PredictiveModel / the log-likelihood served another consumer with another name map before
+        shared = other_map(rng, list(names), xmap, [str(v) for v in ds.data_vars])
+        inp = dict(inp, earlier_param_map=[[a_, b_] for a_, b_ in shared.items()])
+        try:
+            chi.PosteriorPredictiveModel(pred, ds, param_map=shared)
+        except Exception as e:  # noqa
+            ctx.spec('C18.readback/other_model_on_shared_predictive_model', False, inp,
+                     {'constructor raised': repr(e)[:200]})
+        try:
+            chi.compute_pointwise_loglikelihood(ll, ds, param_map=shared)
+        except Exception:  # noqa
+            pass
     try:
         df = chi.PosteriorPredictiveModel(pred, ds, param_map=xmap or None).sample([0.5, 2.0], n_samples=2,
                                                                                seed=seed)
@@ -527,8 +591,9 @@ def individual_dataset_case(ctx, chi, rng, k):
     for _ in range(2):
         par = g.choice(posterior)
         want += list(pred.sample(par, [0.5, 2.0], 2, g, return_df=False)[0, :, 0])
-    ctx.spec('C18.readback/posterior_predictive', not isinstance(got, str) and core.close(got, want, 1e-12), inp,
-             {'chi': got, 'expected': want})
+    ctx.spec('C18.readback/posterior_predictive' if shared is None else
+             'C18.readback/posterior_predictive_shared_predictive_model',
+             not isinstance(got, str) and core.close(got, want, 1e-12), inp, {'chi': got, 'expected': want})
     try:
         pw = chi.compute_pointwise_loglikelihood(ll, ds, param_map=xmap or None)
         gotp = np.asarray(pw.values, float)
@@ -536,7 +601,8 @@ def individual_dataset_case(ctx, chi, rng, k):
         gotp = core.errkind(e)
     wantp = np.array([[ll.compute_pointwise_ll(chains[ci, di]) for di in range(n_draws)]
                       for ci in range(n_chains)], float)
-    ctx.spec('C18.readback/pointwise_individual_dataset', not isinstance(gotp, str) and
+    ctx.spec('C18.readback/pointwise_individual_dataset' if shared is None else
+             'C18.readback/pointwise_loglikelihood_after_call_with_other_map', not isinstance(gotp, str) and
              gotp.shape == wantp.shape and core.close(gotp, wantp, 1e-12), inp,
              {'chi': gotp if isinstance(gotp, str) else 'array'})
 
@@ -544,27 +610,99 @@ def individual_dataset_case(ctx, chi, rng, k):
 # ----------------------------------------------------------------------------------------
 # optimisation table, initial points of the controllers
 # ----------------------------------------------------------------------------------------
-def table_case(ctx, chi, lp, label, inp, rng):
+BREAKS = [RuntimeError, ValueError, FloatingPointError, ArithmeticError, KeyError, ZeroDivisionError]
+
+
+def recording_optimiser(base, limits, book):
+    """an optimiser handed to the controller through set_optimiser: every instance (one per run) notes the
+    point it was started from and the points it proposed, and — where `limits[run]` says so — breaks down
+    (raises from ask) after that many iterations, as an optimiser that meets a numerical problem does"""
+    class Recording(base):
+        def __init__(self, x0, sigma0=None, boundaries=None):
+            super().__init__(x0, sigma0, boundaries)
+            self._rec = {'x0': np.array(x0, float), 'asked': [], 'asks': 0, 'run': len(book), 'broke': False}
+            book.append(self._rec)
+
+        def ask(self):
+            rec = self._rec
+            lim = limits[rec['run']] if rec['run'] < len(limits) else None
+            if lim is not None and rec['asks'] >= lim[0]:
+                rec['broke'] = True
+                raise lim[1]('the run breaks down')
+            rec['asks'] += 1
+            xs = super().ask()
+            rec['asked'] += [np.array(x, float) for x in xs]
+            return xs
+    Recording.__name__ = base.__name__
+    return Recording
+
+
+def table_case(ctx, chi, lp, label, inp, rng, expected_id=False):
+    """OptimisationController.run: the table pairs estimate / name / ID / score / run, block by block.
+    Runs may break down (any subset of the runs, after 0-3 iterations): a run that produced no estimates is
+    tabulated as missing values under its own run number — never with the numbers of another run.
+    `expected_id`: for an individual posterior the label its log-likelihood was given (None: no label)"""
     seed = pick_seed(rng, 1000)
     try:
         ctrl = chi.OptimisationController(lp, seed=seed)
     except Exception:  # noqa
         return
-    n_runs = int(rng.integers(1, 4))
+    n_runs = int(rng.integers(1, 5))
     ctrl.set_n_runs(n_runs)
     ctrl.set_parallel_evaluation(False)
-    if lp.n_parameters() < 2 or rng.random() < 0.5:
+    n_par = lp.n_parameters()
+    book, limits = [], []
+    mode = rng.random()
+    recorded = mode >= 0.25
+    if recorded:
+        bases = [pints.NelderMead] if n_par < 2 else [pints.CMAES, pints.CMAES, pints.NelderMead, pints.XNES,
+                                                      pints.SNES]
+        base = bases[int(rng.integers(len(bases)))]
+        if mode >= 0.55:
+            limits = [[int(rng.integers(0, 4)), BREAKS[int(rng.integers(len(BREAKS)))]] if rng.random() < 0.45
+                      else None for _ in range(n_runs)]
+            if n_runs >= 2 and rng.random() < 0.5:      # a finished run followed by a broken one
+                j = int(rng.integers(1, n_runs))
+                limits[j - 1] = None
+                limits[j] = [int(rng.integers(0, 4)), BREAKS[int(rng.integers(len(BREAKS)))]]
+        ctrl.set_optimiser(recording_optimiser(base, limits, book))
+    elif n_par < 2 or mode < 0.12:
         ctrl.set_optimiser(pints.NelderMead)
-    with np.errstate(all='ignore'):
-        res = ctrl.run(n_max_iterations=int(rng.integers(6, 11)))
+    inp = dict(inp, table={'seed': seed, 'n_runs': n_runs, 'recorded': bool(recorded),
+                           'breaks': [None if v is None else [v[0], v[1].__name__] for v in limits]})
+    try:
+        with np.errstate(all='ignore'), contextlib.redirect_stdout(io.StringIO()):
+            res = ctrl.run(n_max_iterations=int(rng.integers(6, 11)))
+    except Exception as e:  # noqa
+        if any(rec['broke'] for rec in book):
+            # the break-down is passed on to the caller: no table, nothing mispaired
+            ctx.branches.add('table:run_raised:' + core.errkind(e))
+            return
+        raise
     names = lp.get_parameter_names()
-    ids = lp.get_id()
-    if not isinstance(ids, list):
-        ids = [ids] * len(names)
+    if expected_id is False:
+        ids = lp.get_id()
+        id_spec = list(ids)
+    else:
+        ids = [expected_id] * len(names)
+        id_spec = expected_id
     K = len(names)
+    attributed = recorded and len(book) == n_runs
+    broke = [bool(attributed and book[r]['broke']) for r in range(n_runs)]
+
+    def own_point(est, r):
+        return any(p.shape == est.shape and np.allclose(est, p, rtol=1e-12, atol=0.0) for p in book[r]['asked'])
+    if attributed:
+        # the runs start from the posterior's initial points for this seed, run by run
+        with np.errstate(all='ignore'):
+            want = np.asarray(lp.sample_initial_parameters(n_samples=n_runs, seed=seed), float)
+        got0 = np.array([rec['x0'] for rec in book])
+        ctx.spec('C18.controller_initial_points/optimisation', got0.shape == want.shape and
+                 np.allclose(got0, want, rtol=1e-12, atol=0.0), inp, {'started_from': got0, 'expected': want})
     ok = list(res.columns) == ['ID', 'Parameter', 'Estimate', 'Score', 'Run'] and len(res) == n_runs * K
-    runs = []
-    detail = {'n_runs': n_runs, 'K': K, 'rows': len(res)}
+    outcomes = []
+    detail = {'n_runs': n_runs, 'K': K, 'rows': len(res), 'broken_runs': [r + 1 for r in range(n_runs) if broke[r]]}
+    broken_ok = True
     if ok:
         for r in range(n_runs):
             blk = res.iloc[r * K:(r + 1) * K]
@@ -574,26 +712,60 @@ def table_case(ctx, chi, lp, label, inp, rng):
             if list(blk['Parameter']) != names or idcol != list(ids) or list(blk['Run']) != [r + 1] * K:
                 ok = False
                 detail['block'] = r
+                detail['ids'] = [idcol, list(ids)]
                 break
-            if not np.all(sc == sc[0]):
+            if not (np.all(sc == sc[0]) or np.all(np.isnan(sc))):
                 ok = False
                 detail['score_not_constant'] = r
                 break
             with np.errstate(all='ignore'):
                 v = float(lp(est)) if not np.any(np.isnan(est)) else float('nan')
+            if broke[r]:
+                missing = bool(np.all(np.isnan(est)) and np.all(np.isnan(sc)))
+                if not (missing or (own_point(est, r) and core.close(v, float(sc[0]), 1e-9))):
+                    broken_ok = False
+                    detail['broken_run_reported_as'] = {'run': r + 1, 'estimates': est, 'score': float(sc[0])}
+                    break
+                outcomes.append(None if missing else [list(est), float(sc[0])])
+                continue
             # (a non-finite score is pints' "nothing found yet" marker, not an evaluation of the estimates)
             if math.isfinite(sc[0]) and not core.close(v, float(sc[0]), 1e-9):
                 ok = False
                 detail['score_of_estimates'] = [v, float(sc[0])]
                 break
-            runs.append([list(est), float(sc[0])])
+            if attributed and math.isfinite(sc[0]) and not own_point(est, r):
+                ok = False
+                detail['estimates_not_proposed_in_their_run'] = {'run': r + 1, 'estimates': est}
+                break
+            outcomes.append([list(est), float(sc[0])])
     ctx.spec('C18.table_pairs/' + label, ok, inp, detail)
-    if ok:
-        mo = ctx.model('C18.table', list(ids), names, runs)
+    if any(broke):
+        ctx.branches.add('table:broken_run')
+        ctx.spec('C18.table_pairs/broken_run_keeps_its_own_row', broken_ok, inp, detail)
+    if ok and broken_ok:
+        mo = ctx.model('C18.table_outcomes', id_spec, names, outcomes)
         chi_rows = [[None if (v is None or (isinstance(v, float) and math.isnan(v))) else v, p, float(e), float(s),
                      int(rn)] for v, p, e, s, rn in zip(res['ID'], res['Parameter'], res['Estimate'],
                                                         res['Score'], res['Run'])]
-        ctx.agree('C18.table/' + label, chi_rows, mo[0], inp)
+        ctx.agree('C18.table/' + label, ['ok', chi_rows], mo, inp)
+    if ok and broken_ok and rng.random() < 0.2:
+        # the same controller is run once more: the table handed out first keeps describing the first
+        # optimisation, the new table is labelled like the first
+        held = res.copy(deep=True)
+        try:
+            with np.errstate(all='ignore'), contextlib.redirect_stdout(io.StringIO()):
+                res2 = ctrl.run(n_max_iterations=3)
+        except Exception as e:  # noqa
+            if any(rec['broke'] for rec in book[n_runs:]):
+                return
+            raise
+        idcol2 = [None if (v is None or (isinstance(v, float) and math.isnan(v))) else v for v in res2['ID']]
+        ctx.spec('C18.table_pairs/second_run_of_the_controller',
+                 list(res2.columns) == list(held.columns) and len(res2) == n_runs * K
+                 and idcol2 == list(ids) * n_runs and list(res2['Parameter']) == names * n_runs
+                 and list(res2['Run']) == [r + 1 for r in range(n_runs) for _ in range(K)], inp,
+                 {'rows': len(res2)})
+        ctx.spec('C18.table_pairs/first_table_held', res.equals(held), inp)
 
 
 def controller_initial_points(ctx, chi, rng, k):
@@ -738,8 +910,8 @@ def filter_case(ctx, chi, rng, k):
 
 
 # ----------------------------------------------------------------------------------------
-def hier_case(ctx, chi, c, k, rng):
-    inp = {'kind': 'hier', 'k': k, 'config': c}
+def hier_case(ctx, chi, c, k, rng, kind='hier'):
+    inp = {'kind': kind, 'k': k, 'config': c}
     try:
         lp, h, pm, subs, cov, lls = build_hier(chi, c)
     except Exception as e:  # noqa
@@ -773,12 +945,12 @@ def corpus(ctx, chi):
     rng = ctx.sub_rng(999)
     # witness of C18_initial_structure_counterexample: wrapped pooled + Gaussian, two individuals
     c = {'cfg': [('CovP', 1), ('G', 1)], 'n_ids': 2, 'custom_ids': True, 'toy_seed': 1, 'reduced': False}
-    ctx.guard(hier_case, ctx, chi, c, 0, rng)
+    ctx.guard(hier_case, ctx, chi, c, 0, rng, 'corpus')
     # C18_roundtrip_example: Gaussian + pooled dimension, two individuals
     c = {'cfg': [('G', 1), ('P', 1)], 'n_ids': 2, 'custom_ids': True, 'toy_seed': 2, 'reduced': False}
-    ctx.guard(hier_case, ctx, chi, c, 0, rng)
+    ctx.guard(hier_case, ctx, chi, c, 0, rng, 'corpus')
     c = {'cfg': [('H', 1), ('LN', 2), ('P', 1)], 'n_ids': 3, 'custom_ids': False, 'toy_seed': 3, 'reduced': False}
-    ctx.guard(hier_case, ctx, chi, c, 0, rng)
+    ctx.guard(hier_case, ctx, chi, c, 0, rng, 'corpus')
 
 
 def run_one(ctx, chi, kind, k):
@@ -787,12 +959,20 @@ def run_one(ctx, chi, kind, k):
         ctx.guard(hier_case, ctx, chi, gen_config(rng), k, rng)
     elif kind == 'individual':
         ctx.guard(individual_dataset_case, ctx, chi, rng, k)
-        if k % 3 == 0:
+        if k % 2 == 0:
+            # the table of an individual posterior; the log-likelihood may carry the label of its individual
+            # (as every log-likelihood built from a data frame does): the ID column then shows that label
             n_mech = int(rng.integers(1, 3))
             ll = chi.LogLikelihood(toy.ToyModel(1, n_mech, k), chi.GaussianErrorModel(), [1.0, 2.0, 1.5],
                                    [0.5, 1.0, 2.0])
+            label = [None, 'pat-%d' % (7 * k + 3), 'B %d' % k, k + 1, float(k + 2), '0'][int(rng.integers(6))]
+            if label is not None:
+                ll.set_id(label)
+            expected = None if label is None else str(int(label) if isinstance(label, float) else label)
             lp = chi.LogPosterior(ll, prior_for(n_mech + 1, k))
-            ctx.guard(table_case, ctx, chi, lp, 'individual', {'kind': 'individual-table', 'k': k}, rng)
+            ctx.case('individual-table/%s' % ('labelled' if label is not None else 'unlabelled'), nontrivial=False)
+            ctx.guard(table_case, ctx, chi, lp, 'individual',
+                      {'kind': 'individual-table', 'k': k, 'label': label}, rng, expected)
     elif kind == 'filter':
         ctx.guard(filter_case, ctx, chi, rng, k)
     else:
@@ -802,7 +982,7 @@ def run_one(ctx, chi, kind, k):
 def run(ctx):
     chi = core.import_chi()
     corpus(ctx, chi)
-    n = {'quick': (400, 40, 60, 16), 'thorough': (10200, 660, 1020, 90)}[ctx.tier]
+    n = {'quick': (400, 40, 60, 16), 'thorough': (9400, 660, 1020, 90)}[ctx.tier]
     for kind, cnt in zip(('hier', 'individual', 'filter', 'ctrl'), n):
         for k in range(cnt):
             run_one(ctx, chi, kind, k)
